@@ -56,6 +56,13 @@ CHECKS = {
         technique=MC_TECH + " (all pairs/triples of a boundary set of doubles under every numeric operation, compared with IEEE reference operations)",
         design="DESIGN.md §4 C09",
     ),
+    "C10": dict(
+        category="exploration",
+        text="Every function named by the property (sort/uniq/set with and without keyF, the set functions, member/contains/find/count/remove/removeAt, flatten*, foldl/foldr/map/mapWithIndex/filter/filterMap/flatMap, join/lines/deepJoin, any/all/sum/avg/minArray/maxArray, range/repeat/slice/makeArray) applied to every applicable argument tuple drawn from all arrays up to length 6 over {1,2,3}, all arrays up to length 3-4 over a mixed-type alphabet, all pairs of sets over a 6-element universe, all indexes -3..len+3 and a pool of total/partial/type-changing key, predicate and fold functions; compared with the reference definitions.",
+        note="Trusted: the reference definitions in harness/src/refstd.rs (transcriptions of the documented std.jsonnet definitions); set functions on non-set inputs are not judged.",
+        technique=MC_TECH + " (all argument tuples over small alphabets for every listed std function, differential against reference definitions)",
+        design="DESIGN.md §4 C10",
+    ),
 }
 
 
